@@ -73,15 +73,21 @@ CharRefs(s) == CharRefsFrom(s, 1)
 HasCDEnd(s) == \E i \in 1..(Len(s) - 2) : s[i] = 93 /\ s[i + 1] = 93 /\ s[i + 2] = 62
 NOTE1 == <<60,33,45,45,32,110,32,45,45,62>>      \* <!-- n -->
 NOTE2 == <<60,63,110,32,118,63,62>>              \* <?n v?>
+\* cut positions fall on character boundaries: the largest boundary <= k (0 = none inside the string)
+IsCont(b) == b >= 128 /\ b <= 191
+RECURSIVE CutAt(_, _)
+CutAt(s, k) == IF k <= 0 THEN 0 ELSE IF k < Len(s) /\ IsCont(s[k + 1]) THEN CutAt(s, k - 1) ELSE k
 RenderText(s, st, j) ==
     LET body(x) == IF st.cdata /\ ~HasCDEnd(x) /\ x # <<>> THEN <<60,33,91,67,68,65,84,65,91>> \o x \o <<93,93,62>>
                    ELSE IF st.refs THEN CharRefs(x) ELSE EscText(x) IN
-    IF st.split3At = j /\ Len(s) >= 3      \* two insertions: the run is cut into three pieces
-    THEN LET a == Len(s) \div 3
-             b == Len(s) - a IN
+    IF st.split3At = j /\ Len(s) >= 3 /\ CutAt(s, Len(s) \div 3) >= 1 /\ CutAt(s, Len(s) - Len(s) \div 3) > CutAt(s, Len(s) \div 3)
+       /\ CutAt(s, Len(s) - Len(s) \div 3) < Len(s)      \* two insertions: the run is cut into three pieces
+    THEN LET a == CutAt(s, Len(s) \div 3)
+             b == CutAt(s, Len(s) - Len(s) \div 3) IN
          body(SubSeq(s, 1, a)) \o NOTE1 \o body(SubSeq(s, a + 1, b)) \o (IF st.noteKind = 0 THEN NOTE2 ELSE NOTE1) \o body(SubSeq(s, b + 1, Len(s)))
-    ELSE IF st.splitAt = j /\ Len(s) >= 2       \* a comment / PI inside the text run
-    THEN body(SubSeq(s, 1, Len(s) \div 2)) \o (IF st.noteKind = 0 THEN NOTE1 ELSE NOTE2) \o body(SubSeq(s, Len(s) \div 2 + 1, Len(s)))
+    ELSE IF st.splitAt = j /\ Len(s) >= 2 /\ CutAt(s, Len(s) \div 2) >= 1       \* a comment / PI inside the text run
+    THEN LET c == CutAt(s, Len(s) \div 2) IN
+         body(SubSeq(s, 1, c)) \o (IF st.noteKind = 0 THEN NOTE1 ELSE NOTE2) \o body(SubSeq(s, c + 1, Len(s)))
     ELSE body(s)
 
 RECURSIVE RenderFrom(_, _, _, _)
@@ -115,7 +121,7 @@ RenderDoc(L, st) ==
 ElementOnly(L) == \A i \in 1..Len(L) : L[i][1] # "Text"
 WsSites(L) == IF ElementOnly(L) THEN {j \in 2..Len(L) : TRUE} ELSE {}
 \* (a comment is inserted between two characters, never inside a multi-byte character)
-TextSites(L) == {j \in 1..Len(L) : L[j][1] = "Text" /\ Len(L[j][2]) >= 2 /\ \A i \in 1..Len(L[j][2]) : L[j][2][i] < 128}
+TextSites(L) == {j \in 1..Len(L) : L[j][1] = "Text" /\ Len(L[j][2]) >= 2 /\ CutAt(L[j][2], Len(L[j][2]) \div 2) >= 1}
 \* unknown children may be added only to element-only content of a struct that ignores unknown fields
 UnkChildOk(tyn) == tyn \in {"F02", "F03", "F05", "F11", "F18", "F19", "F20", "F22", "F23", "F29"}
 
